@@ -18,7 +18,7 @@ EXPECTED_PROBES = ["c05-first-true-at-gen", "c05-first-true-at-presprout", "c05-
                    "c05-gsc-verdict-vs-definition"]
 ASSUMPTIONS = ["an injected stop signal is sticky; a shipped GSC observed to flip back to false gets no wind-down verdict (counted as c05-flip)"]
 
-PROFILE = P.profile(p_stop_signal=0.5, gens=[1, 2, 3, 4], entry_w={"tree": 8, "hms": 1, "minimize": 1},
+PROFILE = P.profile(dims=[2, 2, 2, 3, 3, 4, 5, 8, 10], p_stop_signal=0.5, gens=[1, 2, 3, 4], entry_w={"tree": 8, "hms": 1, "minimize": 1},
                     gsc_w={"metaepoch_limit": 3, "singular_eval_limit": 3, "fitness_eval_limit": 3, "precision": 2,
                            "root_stopped": 2, "all_stopped": 2, "no_active_nonroot": 2, "dont_run": 0.5},
                     p_cutoff=0.15)
@@ -69,11 +69,41 @@ class C05Monitor(Monitor):
         self.step_consults = {}  # id(deme) -> gen consults in the current step
         self._req_seen = 0
         self._req_by = {}
+        self.t_def = None
         self.last_ran = {}  # id(deme) -> last step in which it requested evaluations during the metaepoch phase
         self.keep = []
 
+    def _gen_size(self, deme):
+        """Upper bound of objective requests one engine iteration of this deme can make (None: unbounded)."""
+        cls = type(deme).__name__
+        if cls == "LocalDeme":
+            return None
+        if cls == "CMADeme":
+            return int(deme._cma_es.popsize)
+        ps = getattr(deme, "_pop_size", None)
+        return int(ps) if ps is not None else None
+
+    def _definition_moment(self, tree):
+        """First event at which the shipped GSC holds by its definition (whether or not anybody consulted it)."""
+        w = self.w
+        if self.t_def is not None or not w.tree_ready or w.plan.get("entry") == "phases":
+            return
+        g = (w.plan.get("gsc") or {}).get("kind")
+        if g in (None, "dont_run", "precision"):
+            return
+        try:
+            ref = self._reference_gsc(tree)
+        except Exception:
+            return
+        if ref:
+            self.t_def = {"n_req": len(w.requests), "step": w.step,
+                          "active": {id(d): d for d in all_demes(tree) if d._active}}
+            w.probe("c05-definition-moment-seen")
+
     def on_request(self, req):
         w = self.w
+        if self.t_def is None and w.tree is not None and w.phase in ("metaepoch",):
+            self._definition_moment(w.tree)
         if w.phase == "metaepoch" and req.deme >= 0:
             d = w.deme_list[req.deme].obj
             if id(d) not in self.last_ran:
@@ -172,6 +202,10 @@ class C05Monitor(Monitor):
         if site == "gen" and deme is not None and w.phase == "metaepoch":
             self._ran(deme)
         ref = self._reference_gsc(tree)
+        if ref and self.t_def is None and (w.plan.get("gsc") or {}).get("kind") not in (None, "dont_run", "precision") \
+                and w.plan.get("entry") != "phases":
+            self.t_def = {"n_req": len(w.requests), "step": w.step,
+                          "active": {id(d): d for d in all_demes(tree) if d._active}}
         if ref is not None:
             w.probe("c05-gsc-verdict-vs-definition")
             if bool(ref) != bool(raw):
@@ -234,6 +268,23 @@ class C05Monitor(Monitor):
                     self.violate("dontrun-ran", {"count": tree.metaepoch_count})
                 if any(r.step != 0 or w.deme_list[r.deme].obj is not tree.root for r in w.requests if r.deme >= 0):
                     self.violate("dontrun-evaluated", {})
+        # wind-down measured from the moment the condition held by its definition: every deme may still finish /
+        # perform ONE engine iteration, i.e. request at most one generation's worth of evaluations
+        if self.t_def is not None and not self.flip and self.w.stop_at is None and (
+                outcome == "returned" or str(outcome).startswith("capped")):
+            after = {}
+            for r in w.requests[self.t_def["n_req"]:]:
+                after[r.deme] = after.get(r.deme, 0) + 1
+            for k, d in self.t_def["active"].items():
+                n = after.get(w.deme_ord(d), 0)
+                bound = self._gen_size(d)
+                if bound is None:
+                    continue
+                w.probe("c05-request-bound-judged")
+                if n > bound:
+                    self.violate("more-than-one-generation-of-evaluations-after-condition-held/" + type(d).__name__,
+                                 {"deme": d.id, "requests_after": n, "one_generation": bound,
+                                  "gsc": (w.plan.get("gsc") or {}).get("kind")})
         if self.t is None or self.flip:
             return
         if not (outcome == "returned" or str(outcome).startswith("capped")):
